@@ -144,4 +144,16 @@ CLAIMED.update({
   "note": "The walker itself (heimdalr/dag v1.3.1) and sync.RWMutex writer preference are modelled by hand, not translated. 'Every later operation completes' is shown for the lock/channel protocol; termination of badger calls and signature checks is assumed. Lock facts come from a syntactic analysis (top-of-function Lock/defer Unlock; inherited by unexported callees).", "design_ref": "6 C08",
  },
 })
+CLAIMED.update({
+ "C18": {
+  "engine": "extract-locks+conch-race",
+  "technique": "Coq: lockset discipline decided over an access table regenerated from the Go source (AST translator: field accesses of lock-owning structs, locks held incl. inherited and inline regions, goroutine roots) + reader/writer-lock exclusion theorem by induction over acquire/release sequences => no two conflicting accesses simultaneously enabled; Go race detector over an operation-pair matrix on the real node as dynamic oracle and failing-input search",
+  "text": "C18_lockset_discipline (over the regenerated table: every pair of accesses to one field, one a write, reachable from two goroutines of a serving node, holds a common lock with one side exclusive), C18_rw_lock_excludes (for every acquire/release history a writer never coexists with another holder), C18_no_simultaneous_conflicting_access (for every lock state and every two goroutines). The orphan buffer before fix ea90eff is refuted in the model. The race binary runs every pair of ledger operations, the real retry ticker, truncation under load and the gossip peer table operations under the Go race detector.",
+  "note": "partial: the theorem covers mutable fields of lock-owning structs in accountant/cache/gossip under a syntactic lock analysis; races on captured locals, through aliased slice elements or inside libraries are only searched dynamically. The race detector itself judges only the interleavings the workload produces.",
+  "design_ref": "6 C18", "category": "proof",
+ },
+})
 NOT_YET = {}
+
+# commits in /repo that add the guarded hooks (build tag verif; new files only)
+HOOK_COMMITS = ["86dc6d7", "4eab456", "3c8adb9", "2c13ec8", "88288b2", "3efce54", "29da8e0"]
